@@ -363,6 +363,15 @@ func c04Gen(rng *rand.Rand, tier string, w *bufio.Writer) {
 	emit(append(append([]byte{}, hdr...), c04Block(1<<30, 0, 0, []byte{1, 2, 3}, false)...), 0, "forged-csize")
 	emit(append(append([]byte{}, hdr...), c04Block(5, 7, 1, nil, false)...), 0, "forged-csize") // header, then nothing: io.EOF quirk
 	emit(append(append([]byte{}, hdr...), c04Block(5, 7, 1, []byte{9, 9}, false)...), 0, "trunc")
+	// zero-filled tails: behind the name, behind a block, shorter and longer than a block header
+	for _, n := range []int{1, 15, 16, 17, 100} {
+		emit(append(append([]byte{}, hdr...), make([]byte, n)...), 0, "zerotail")
+	}
+	emit(append(append(append([]byte{}, hdr...), c04Block(0, 0, 0, nil, false)...), c04Block(5, 7, 1, []byte{1, 2, 3, 4, 5}, true)...), 0, "csize") // zero size field, then a block
+	emit(append(append(append([]byte{}, hdr...), c04Block(3, 7, 1, []byte{1, 2, 0}, true)...), 0, 0, 0), 0, "zeroend") // does not decode, ends in 0, zeros behind
+	emit(append(append(append([]byte{}, hdr...), c04Block(3, 7, 1, []byte{1, 2, 0}, true)...), 0, 0, 1), 0, "zeroend") // … a non-zero byte behind
+	emit(append(append([]byte{}, hdr...), c04Block(3, 7, 1, []byte{1, 2, 0}, false)...), 0, "zeroend")                  // checksum mismatch, ends in 0, nothing behind
+	emit(append(append([]byte{}, hdr...), c04Block(3, 7, 1, []byte{1, 0, 2}, false)...), 0, "zeroend")                  // … does not end in 0
 	big := []byte{0xff, 0xff, 0xff, 0xff, 0x0f, 0x00} // snappy varint 0xFFFFFFFF, then a literal tag
 	emit(append(append([]byte{}, hdr...), c04Block(uint32(len(big)), 0xFFFFFFFF, 1, big, true)...), 0, "forged-dlen")
 	mid := []byte{0x80, 0x80, 0x80, 0x40, 0x00} // snappy varint 128 MiB
@@ -416,7 +425,32 @@ func c04Gen(rng *rand.Rand, tier string, w *bufio.Writer) {
 			x := append([]byte{}, b.bytes...)
 			blk := b.blocks[rng.Intn(len(b.blocks))]
 			kind := ""
-			switch rng.Intn(12) {
+			switch rng.Intn(16) {
+			case 12: // the file size outlived the data: zero bytes appended behind the last block
+				kind = "zerotail"
+				x = append(x, make([]byte, []int{1, 15, 16, 17, 1 + rng.Intn(200), 70000}[rng.Intn(6)])...)
+			case 13: // … or the data of the last append(s) never reached the disk: zeros from some offset of the block area on
+				kind = "zerofill"
+				for k := b.blocks[0] + rng.Intn(len(x)-b.blocks[0]); k < len(x); k++ {
+					x[k] = 0
+				}
+			case 14: // a zeroed range in the middle (intact data behind it): not a torn tail
+				kind = "zeromid"
+				from := blk + rng.Intn(len(x)-blk)
+				for k := from; k < len(x) && k < from+1+rng.Intn(40); k++ {
+					x[k] = 0
+				}
+			case 15: // a block that does not parse, ends in a zero byte, zeros (or not) behind it
+				kind = "zeroend"
+				end := blk + 16 + int(binary.LittleEndian.Uint32(x[blk:]))
+				if end <= len(x) && end > blk+16 {
+					x[end-1] = 0
+					x[blk+16+rng.Intn(end-blk-16)] ^= 0x55
+					x = append(x[:end:end], make([]byte, rng.Intn(40))...)
+					if rng.Intn(3) == 0 {
+						x = append(x, 7)
+					}
+				}
 			case 0, 1:
 				kind = "flip"
 				x[rng.Intn(len(x))] ^= 1 << uint(rng.Intn(8))
